@@ -9,6 +9,9 @@ CONSTANTS
     FamsRep <- RepFams
     FullMid = 2
     FullDepth = 0
+    OpenOps <- AllOpenOps
+    WideOpen = FALSE
+    Paths <- AllPaths
 INVARIANT Emit
 INVARIANT ReportHoles
 CHECK_DEADLOCK FALSE
